@@ -114,7 +114,12 @@ def key_pool(cls):
     prot = sorted(cls._PROTECTED_KEYS)
     methods = [m for m in dir(cls) if not m.startswith("_")][:40]
     dunders = ["__foo", "__len__", "__class__x", "__", "__data"]
-    odd = ["a b", "1x", "", "é", "class", "x-y", "_under", "_private_like", "def"]
+    # also names that tools probe for (display hooks, namedtuple / pickle / copy protocol names
+    # without double underscores, typing helpers): eligible keys like any other
+    odd = ["a b", "1x", "", "é", "class", "x-y", "_under", "_private_like", "def",
+           "_", "_x", "_repr_html_", "_repr_cache", "_repr_", "_ipython_display_", "_ipython_session",
+           "_asdict", "_fields", "_replace", "_getAttributeNames", "trait_names", "getdoc", "_meta",
+           "_id", "_type", "_data_", "_rev", "x_", "x__y", "_0"]
     plain = ["alpha", "beta", "k", "value2"]
     return prot, methods, dunders, odd, plain
 
